@@ -161,9 +161,9 @@ class LaplaceTransformer(UnilateralForwardTransformer):
 
         if f_of_t_minus_var(f2) and f_of_var(f1):
             F1 = self.term(f1, var, s)
-            F2 = self.term(f2.subs(t - var, t), t, s)
+            F2 = self.term(sym.simplify(f2.subs(t, t + var)), t, s)
         elif f_of_t_minus_var(f1) and f_of_var(f2):
-            F1 = self.term(f1.subs(t - var, t), t, s)
+            F1 = self.term(sym.simplify(f1.subs(t, t + var)), t, s)
             F2 = self.term(f2, var, s)
         else:
             self.error('Cannot recognise convolution')
@@ -268,6 +268,16 @@ class LaplaceTransformer(UnilateralForwardTransformer):
 
         if shift != 0:
             # This will be handled by rewriting the function.
+            return None
+
+        if expr.args[0] != t:
+            # similarity_shift could not extract the scale and shift
+            # (it then returns the expression unchanged with scale 1).
+            return None
+
+        if scale.is_negative:
+            # The table below is for a positive scale; a time-reversed
+            # function is handled by rewriting it in terms of steps.
             return None
 
         if expr.func is rect:
